@@ -114,6 +114,23 @@ func init() {
 		}
 		return "ok " + hx(t) + " ok " + showDep(&e)
 	}
+	// dreuse a b: UnmarshalControl(b) into a receiver that already holds the parse of a - the result is the parse of b
+	ops["dreuse"] = func(a []string) string {
+		var d dependency.Dependency
+		d.UnmarshalControl(arg(a, 0))
+		if err := d.UnmarshalControl(arg(a, 1)); err != nil {
+			return "err"
+		}
+		return "ok " + showDep(&d)
+	}
+	ops["areuse"] = func(a []string) string {
+		var x dependency.Arch
+		x.UnmarshalControl(arg(a, 0))
+		if err := x.UnmarshalControl(arg(a, 1)); err != nil {
+			return "err"
+		}
+		return showArch(x)
+	}
 	ops["aparse"] = func(a []string) string {
 		x, err := dependency.ParseArch(arg(a, 0))
 		if err != nil {
